@@ -89,6 +89,22 @@ INFO = {
  ('4','C18','m2'): ("the error callback keeps the err lock while it sets done and wakes: poll on another thread takes the locks in the other order on the error path", []),
  ('4','C19','m1'): ("a terminal accepted while an item check holds the flag is not recorded: a terminal races an item on one shared observer, then a second terminal arrives", ['C01']),
  ('4','C19','m2'): ("the terminal that loses the race re-opens the gate: complete and error race on one shared observer, later items get through", ['C01']),
+ ('5','C03','m1'): ("sample clears its slot after the delivery instead of before: a source item arrives while the previous sample is still being delivered (subscriber feeds the source from its callback, or a second thread)", ['C07']),
+ ('5','C03','m2'): ("take_until: the trigger's complete goes through sink_complete and the trigger is subscribed first: a trigger that completes with zero items synchronously inside its subscribe (empty(), everything filtered out)", []),
+ ('5','C04','m1'): ("ReplaySubject::error broadcasts first and stores the error afterwards: a live subscriber whose error handler (retry / retry_when / on_error_resume_next to the same stream) resubscribes to the replayed stream inside the notification", ['C10']),
+ ('5','C04','m2'): ("amb's error callback only checks has_won instead of claiming the win: the error is the very first notification of the whole race", ['C03']),
+ ('5','C05','m1'): ("FunctionWrapper::clear gives up when the slot lock is busy (try_write): a producer holds the slot's read lock at the instant of unsubscribe, subscriber directly on a hot source", []),
+ ('5','C05','m2'): ("Using does not unsubscribe when dropped by unwinding: the scope owning the guard is left by a panic", []),
+ ('5','C08','m1'): ("the worker resets the abort flag when it starts: abort() arrives before the spawned worker reaches that line", ['C15']),
+ ('5','C08','m2'): ("stop() uses try_lock and skips the notify when the queue mutex is busy: abort lands while the worker has re-locked the empty queue and evaluated the predicate but is not yet waiting", ['C15']),
+ ('5','C10','m1'): ("Subject installs the observer's teardown after the on_subscribe hook: the Subject inside ref_count(), a source that emits synchronously inside subscribe, the first subscriber behind take(1) - or any observer that leaves between insert and teardown install", ['C13', 'C06']),
+ ('5','C10','m2'): ("the ReplaySubject replay copies the stored-terminal flags instead of holding their read guards: error()/complete() on another thread while a late subscriber is inside its hand-over of a non-empty history", ['C12']),
+ ('5','C12','m1'): ("the ReplaySubject subscriber's replayed mark advances with each live delivery: A.record(k), B.record(k+1), B.broadcast(k+1), A.broadcast(k) -> item k dropped", []),
+ ('5','C12','m2'): ("ReplaySubject::next broadcasts items.len() instead of len-1 as live index: P.record(k), S registers + replays 0..=k, P.broadcast(k) -> duplicate", []),
+ ('5','C13','m1'): ("Subject::next walks its snapshot with take_while(is_subscribed): an observer leaves (unsubscribed by another observer's callback or by another thread) while an item is being delivered - everyone behind it in the snapshot misses the item", ['C10', 'C12']),
+ ('5','C13','m2'): ("ReplaySubject's live error handler no longer waits for the replay: replay() over a cold source that fails synchronously inside the first subscribe - the first subscriber gets only the error", []),
+ ('5','C14','m1'): ("retry_when clears its (shared) predicate wrapper when it gives up: first subscription ends with a rejected error, the same value is subscribed again and hits an error the predicate accepts", []),
+ ('5','C14','m2'): ("Subject keeps its serial write lock across the on_subscribe hook: ref_count() over a cold synchronous source plus a second subscription started during that run (from the first subscriber's callback: self-deadlock)", ['C07']),
  ('3','C14','m2'): ("amb's winner cell hoisted out of the per-subscription closure: a second subscription in which a source in a different position signals first", []),
 }
 
@@ -105,15 +121,16 @@ def rows(path):
 
 def main():
     only = sys.argv[sys.argv.index('--round') + 1] if '--round' in sys.argv else None
-    results = {'1': {}, '2': {}, '3': {}, '4': {}}
+    results = {'1': {}, '2': {}, '3': {}, '4': {}, '5': {}}
     for p in ['/var/tmp/results1.tsv', os.path.join(S, '_incoming', 'RESULTS.tsv'), '/var/tmp/results2.tsv']:
         results['1'].update(rows(p))
     results['2'].update(rows(os.path.join(S, '_incoming2', 'RESULTS.tsv')))
     results['3'].update(rows(os.path.join(S, '_incoming3', 'RESULTS.tsv')))
     results['4'].update(rows(os.path.join(S, '_incoming4', 'RESULTS.tsv')))
+    results['5'].update(rows(os.path.join(S, '_incoming5', 'RESULTS.tsv')))
     dropped = []
     kept = []
-    for rnd, src in (('1', '_incoming'), ('2', '_incoming2'), ('3', '_incoming3'), ('4', '_incoming4')):
+    for rnd, src in (('1', '_incoming'), ('2', '_incoming2'), ('3', '_incoming3'), ('4', '_incoming4'), ('5', '_incoming5')):
         if only is not None and rnd != only:
             continue
         base = os.path.join(S, src)
@@ -129,7 +146,7 @@ def main():
                     continue
                 key = f'{prop}/{m}'
                 r = results[rnd].get(key)
-                # m1,m2 = round 1; m3,m4 = round 2; m5,m6 = round 3; m7,m8 = round 4
+                # m1,m2 = round 1; m3,m4 = round 2; m5,m6 = round 3; m7,m8 = round 4; m9,m10 = round 5
                 name = f'{prop}-m{int(m[1:]) + 2 * (int(rnd) - 1)}'
                 if r is None:
                     dropped.append((name, 'not re-confirmed yet'))
